@@ -30,7 +30,13 @@ func VH_C07_decrypt_cert() {
 	sp := &SAMLServiceProvider{Clock: vClock("sp"), ValidateEncryptionCert: vFlag("validateEncryptionCert")}
 	cert := vCertBytes("spcert")
 	listEmpty := false
-	switch vChoice("keystore.kind", 3) {
+	switch vChoice("keystore.kind", 5) {
+	case 3:
+		// the setter API (takes precedence over the field)
+		sp.SetSPKeyStore(&KeyStore{Signer: vRSAKey("sp"), Cert: cert})
+	case 4:
+		sp.SPKeyStore = dsig.TLSCertKeyStore(tls.Certificate{PrivateKey: vRSAKey("other")})
+		sp.SetSPKeyStore(&KeyStore{Signer: vRSAKey("sp"), Cert: cert})
 	case 0:
 		sp.SPKeyStore = dsig.TLSCertKeyStore(tls.Certificate{Certificate: [][]byte{cert}, PrivateKey: vRSAKey("sp")})
 	case 1:
